@@ -246,12 +246,12 @@ func TestC09Authenticity(t *testing.T) {
 				b.Txs = append(b.Txs, include)
 			}
 			if _, err := sim.E.Propose(b, r, r); err != nil {
-				rec.Discard("proposal-failed")
+				rec.Discard("proposal-failed:" + chain.Why(err))
 				return
 			}
 			out := sim.E.Execute(r, b, chain.PathProcess, nil)
 			if out.Err != nil || !out.Accepted {
-				rec.Discard("block-failed")
+				rec.Discard("block-failed:" + chain.Why(out.Err))
 				return
 			}
 			if include != nil && out.TxResults[len(b.Txs)-1].Code == 0 {
@@ -260,7 +260,7 @@ func TestC09Authenticity(t *testing.T) {
 			fp = append(fp, b.Hash)
 			sim.Logf("h=%d txs=%d included-f=%v", b.Height, len(b.Txs), include != nil)
 			if err := sim.AfterCommit(b, out); err != nil {
-				rec.Discard("engine-contract")
+				rec.Discard("engine-contract:" + chain.Why(err))
 				return
 			}
 		}
